@@ -95,7 +95,7 @@ structure LoopOut {σ : Type} {F : Finder σ} {d : Array UInt8} {dict : Nat} (FS
   cand : CandOk P d dict p r.2.1.a.opts (r.1 - 1) r.1
   mfR : FS.R r.2.1.mf
   mfPos : FS.pos r.2.1.mf = p + r.1 + (if r.2.2 then 1 else 0)
-  ms : r.2.2 = true → AllValid d dict (p + r.1) r.2.1.ms
+  ms : r.2.2 = true → AllValid d dict (p + r.1) r.2.1.ms ∧ lensIncreasing r.2.1.ms = true
 
 theorem mainLoop_ok {σ : Type} {F : Finder σ} (E : Env) {dict : Nat} (FS : FinderSound F E.d dict 273)
     (hFinc : ∀ s, FS.R s → lensIncreasing (F.find E.d s).1 = true)
@@ -140,7 +140,7 @@ theorem mainLoop_ok {σ : Type} {F : Finder σ} (E : Env) {dict : Nat} (FS : Fin
         refine ⟨by simp only; omega, by simp only; omega, ⟨cur + 1, by simpa only [Nat.add_sub_cancel] using hinv⟩,
           by simpa only [Nat.add_sub_cancel] using hcand, hR2, ?_, ?_⟩
         · simp only [if_true]; rw [hpos2]; omega
-        · intro _; exact hval
+        · intro _; exact ⟨hval, hinc2⟩
       · -- one more position
         have hposok : PosOk E.P E.d p avail0 (cur + 1) E.nice :=
           ⟨⟨hmin, hmax, hreps, hopts2, hinf⟩, hn2, hn273, hav0, hav1, by omega⟩
